@@ -26,7 +26,21 @@ fn filler_header(total_with_crlf: usize) -> Vec<u8> {
     v
 }
 
-fn body_of(n: usize) -> Vec<u8> {
+/// A complete GET request of exactly `pad` bytes (pad >= 27).
+pub fn prefix_request(pad: usize) -> Vec<u8> {
+    let mut v = b"GET /p HTTP/1.1\r\n".to_vec();
+    let mut rest = pad - 17 - 2;
+    while rest > 0 {
+        let l = if rest > 900 + 8 { 900 } else { rest };
+        v.extend_from_slice(&filler_header(l));
+        rest -= l;
+    }
+    v.extend_from_slice(b"\r\n");
+    assert_eq!(v.len(), pad);
+    v
+}
+
+pub fn body_of(n: usize) -> Vec<u8> {
     let mut b = alphabet::tricky_body(n.min(64));
     let mut i = 0usize;
     while b.len() < n {
